@@ -23,7 +23,7 @@ CONFIG = dict(
     audit="Audit/C17.lean",
     required_theorems=["publish_calls_current_once", "publish_at_most_once", "publish_reaches_every_current_listener", "queued_events_were_published", "args_bound_then_published", "other_names_untouched",
                        "never_after_unsubscribe", "never_after_clear", "global_once_per_subscribed_centre",
-                       "global_once_per_registered_centre", "direct_registration_is_a_set", "racing_subscribe_is_script_then_subscribe",
+                       "global_once_per_registered_centre", "direct_registration_is_a_set", "racing_subscribe_is_script_then_subscribe", "receiver_matching_rule",
                        "global_registration_tracks_listeners", "reentrant_ops_do_not_block",
                        "d7_reentrant_unsubscribe_blocked", "d14_light_invoked_after_clear"],
     harness_pkg="./c17",
@@ -39,7 +39,7 @@ CONFIG = dict(
     rule="cases generated from one PRNG (VERIF_SEED): 1-3 centres (local, local+useChan, light), 4-10 listener templates with random "
          "scripts (subscribe/GSubscribe/SubscribeNoCheck, unsubscribe by id self/other/never-subscribed, unsubscribe by code pointer, "
          "nested publish up to depth 3, global publish, clear, direct Subscribe/Unsubscribe(name, centre) on the exported global centre), then 4-13 top-level call lines, owner drains, queue probes and a final "
-         "publish of every name on every centre; families quiet / re-entrant / global / clear-heavy / racing-subscribe (a direct Subscribe through a wrapper centre whose GetId() runs a racing script between the global centre's list lookup and store: unsubscribe-last, clear, further subscriptions) / nested-args (listeners with bound args re-publish the event they handle, nesting 1-3, and re-read their arguments afterwards) / direct-global (stray and duplicate direct (un)registrations before and after real GSubscribe calls, then global publications); 999-slot queue cases (global "
+         "publish of every name on every centre; families quiet / re-entrant / global / clear-heavy / racing-subscribe (a direct Subscribe through a wrapper centre whose GetId() runs a racing script between the global centre's list lookup and store: unsubscribe-last, clear, further subscriptions) / nested-args (listeners with bound args re-publish the event they handle, nesting 1-3, and re-read their arguments afterwards) / receiver-mix (light centre: Subscribe, SubscribeWithReceiver, UnsubscribeWithReceiver and Unsubscribe(cb) mixed for ONE callback value and name, same and different receivers) / direct-global (stray and duplicate direct (un)registrations before and after real GSubscribe calls, then global publications); 999-slot queue cases (global "
          "publication dropped, blocking local publish hangs under the watchdog); malformed stream (unknown centres, templates, tags, "
          "unparsable scripts); real StandardRunService, concurrent-publisher, concurrent-first-subscriber and subscribe/unsubscribe-last/publish stress cases (real goroutines); corpus = D7, D14 and D17 witnesses. A line "
          "is non-trivial when its observation contains at least one listener invocation or a non-empty global fan-out",
@@ -56,6 +56,7 @@ CONFIG = dict(
         "a listener id is not re-used while the centre lives (SerialIdService64 counters do not wrap)",
         "the owner goroutine is the only receiver of a centre's event channel (drain ops model it; the rs op runs the real StandardRunService)",
         "listener scripts terminate (nested publication depth is capped at 3 by the harness and the model alike)",
+        "the light centre's receiver API is modelled with receivers as opaque identities (the harness uses one pointer per receiver number)",
         "Unsubscribe(name, cb) of the light centre is exercised only where at most one listener of that name has the code pointer "
         "(with SubscribeNoCheck duplicates the removed one depends on map order)",
     ],
